@@ -48,6 +48,7 @@ def handleRunLoop (inp impl : Json) : Verdict :=
   let codes := strList (field inp "cases")
   let stop := str (field inp "stop")
   let answered := strList (field impl "answered")
+  let blind := strList (field impl "blind")
   -- the order of the cases inside a batch is the library's (a Go map order, different in every
   -- run); the sends of a batch are sequential and the client answers in arrival order, so inside a
   -- batch the answered requests precede the others: canonical order
@@ -62,10 +63,11 @@ def handleRunLoop (inp impl : Json) : Verdict :=
   -- the assignment, by the property's words: a selected case ran iff the client answered it
   let cases : List Case := names.map fun n =>
     { name := n
-      kind := if answered.contains n then (if right n then .pass else .assertFail) else .noResult
+      kind := if blind.contains n then .clientErr
+              else if answered.contains n then (if right n then .pass else .assertFail) else .noResult
       mark := markOfName n, feedback := false }
   let want := specOk cases 0
-  let clean := stop == "serve" || stop == "exit0"
+  let clean := stop == "serve" || stop == "exit0" || stop == "blind0"
   -- implementation's observation
   let iOk := bool (field impl "ok")
   let iTot : Totals := { passed := nat (field impl "passed"), failed := nat (field impl "failed"),
@@ -81,7 +83,8 @@ def handleRunLoop (inp impl : Json) : Verdict :=
     { failing := fun n => markOfName n == .failing, flaky := fun n => markOfName n == .flaky }
   let script (b : List String) : ServerRunner.Script :=
     { cases := b.map fun n =>
-        if answered.contains n then .answer (if right n then .pass else .mismatch) true else .refuse
+        if blind.contains n then .answer .error true
+        else if answered.contains n then .answer (if right n then .pass else .mismatch) true else .refuse
       isRef := true, useTLS := false, startErr := false, writeErr := false, closeErr := false
       resp := .ok, dies := none, names := b.map (·.toList), stderr := [] }
   let world : List RunLoop.Client :=
@@ -114,7 +117,7 @@ def handleRunLoop (inp impl : Json) : Verdict :=
   { agree := agree, holds := why.isEmpty, nontrivial := true,
     model := Json.mkObj [("ok", mOk), ("passed", mTot.passed), ("expected", mTot.expected), ("failedOrNotRun", mTot.failed + mTot.notRun)],
     why := why,
-    cls := "runloop:" ++ stop ++ (if want then ":all-answered" else ":not-all") ++ (if iOk then ":success" else ":failure") }
+    cls := stop ++ (if want then ":all-answered" else ":not-all") ++ (if iOk then ":success" else ":failure") }
 
 def handle : Handler := fun op inp impl =>
   match op with
